@@ -38,7 +38,7 @@ def base_configs():
         cfgs.append(dict(name=name, **kw))
 
     add("single-plain", datasets=[{"label": "d1", "mc": ["m1"], "maxis": A3, "gaxis": G2}])
-    add("single-scale-weight-gm", datasets=[{"label": "d1", "mc": ["m1"], "maxis": A2, "gaxis": G3, "scale": "sc1",
+    add("single-scale-weight-gm", datasets=[{"label": "d1", "mc": ["m1"], "maxis": A3 + [3.5], "gaxis": G3, "scale": "sc1",
                                              "weight": True, "order": "gm"}])
     add("single-indexdep-constraints",
         mcs={"m1": {"labels": ["s1", "s2", "s3"], "idx": True}},
